@@ -143,6 +143,21 @@ func (x *Ctx) wrapperSymmetryOpt(r *core.Result, rs *core.RuleStat, storeBack bo
 				}
 			}
 		}
+		if storeBack {
+			// nothing but the stack a machine handed back is ever stored into the buffer's stack (here or in a private
+			// helper given the buffer): a wrapper that afterwards drops it (`buffer.stackBuf = nil` when it has grown
+			// large) leaves the next successful call to allocate again
+			for _, fs := range x.fieldStores(fn) {
+				if !fs.Base.isLeaf(bufParam) || !isIntSlice(fs.Store.Val.Type()) {
+					continue
+				}
+				v := fs.Val
+				fromMachine := v != nil && v.Call != nil && v.Call.Call.StaticCallee() != nil && x.Machine(v.Call.Call.StaticCallee().Name()) != nil
+				if !fromMachine {
+					r.Fail(rs, n+":stack-dropped", x.W.Pos(fs.Store.Pos()), "the buffer's stack is overwritten with something other than the stack a machine handed back (the warmed stack is dropped; the next successful call allocates)")
+				}
+			}
+		}
 		key := n + ":wrapper"
 		if len(calls) == 1 {
 			// single-call shape: the stack handed to the machine is nil or buffer.stackBuf (chosen by a nil test on the buffer);
